@@ -1,7 +1,10 @@
 (* C02 — property theorems (statements only; proofs live in C02_Proofs.v).
    Partial proof: the header / percent-codec algebra of the gateway is proved for all inputs;
    net/http (parsing, canonicalisation, field-value rules) is part of the model and is validated
-   by the correspondence run only. Connection upgrades are outside the model ([NotModelled]). *)
+   by the correspondence run only.  Connection upgrades (exec / attach / port-forward) are covered at the
+   identity level: [pipeline] follows apimachinery's tryUpgrade path (all headers cloned, X-Forwarded-For
+   appended, WrapRequest of the endpoint's upgrade transport, no bearer / user-agent wrapper); the tunnel
+   after "101 Switching Protocols" is not modelled. *)
 From KG Require Import Prelude C02_Model C02_Spec C02_Proofs.
 Open Scope Z_scope.
 Open Scope string_scope.
@@ -26,14 +29,14 @@ Print Assumptions C02_identity_exact.
 
 (* a denied impersonation is answered 403 by the gateway: nothing reaches the upstream *)
 Theorem C02_denied_not_forwarded : forall token ip h id authz,
-  is_upgrade_request h = false -> asks h = true -> forallb authz (asked_items h) = false ->
+  asks h = true -> forallb authz (asked_items h) = false ->
   pipeline token ip h id authz = Answered 403.
 Proof. exact denied_not_forwarded. Qed.
 Print Assumptions C02_denied_not_forwarded.
 
 (* a malformed impersonation (groups or extras without a user) is answered 500 by the gateway *)
 Theorem C02_malformed_not_forwarded : forall token ip h id authz,
-  is_upgrade_request h = false -> malformed h = true ->
+  malformed h = true ->
   pipeline token ip h id authz = Answered 500.
 Proof. exact malformed_not_forwarded. Qed.
 Print Assumptions C02_malformed_not_forwarded.
@@ -45,13 +48,14 @@ Theorem C02_unnamed_not_forwarded : forall token ip h id authz,
 Proof. exact unnamed_not_forwarded. Qed.
 Print Assumptions C02_unnamed_not_forwarded.
 
-(* the upstream receives exactly one Authorization value, the gateway's own credential, and every header of
+(* the upstream receives exactly one Authorization value, the gateway's own credential (none at all on the
+   connection-upgrade path, where the bearer wrapper is not applied), never a client's, and every header of
    the Impersonate-* family it receives is one the gateway generated from the context user [id1] (which
    matches the expected identity): nothing identity-bearing the client sent survives *)
 Theorem C02_no_client_identity_header_survives : forall token ip h id authz h',
   pipeline token ip h id authz = Forwarded h' ->
   exists id1, matches_expected id1 (expected h id) /\
-    h_values H_AUTH h' = [trim_ows ("Bearer " +++ token)] /\
+    h_values H_AUTH h' = (if is_upgrade_request h then [] else [trim_ows ("Bearer " +++ token)]) /\
     forall e, In e h' -> has_prefix (fst e) H_IMP = true -> In e (wire (generated_headers id1)).
 Proof. exact no_client_identity_header_survives. Qed.
 Print Assumptions C02_no_client_identity_header_survives.
@@ -70,7 +74,6 @@ Print Assumptions C02_escape_roundtrip.
 (* the model satisfies every clause of the executable specification that the check evaluates on the
    real observations (C02_Spec.spec_clauses) *)
 Theorem C02_model_meets_spec : forall token ip h id deny,
-  is_upgrade_request h = false ->
   spec_clauses token h id deny (obs_of (pipeline token ip h id (allowed deny))) = [true; true; true; true].
 Proof. exact model_meets_spec. Qed.
 Print Assumptions C02_model_meets_spec.
@@ -96,9 +99,20 @@ Example C02_identity_exact_nonvacuous :
 Proof. vm_compute. repeat split. Qed.
 
 Example C02_denied_nonvacuous :
-  is_upgrade_request ex_headers = false /\ asks ex_headers = true /\
+  asks ex_headers = true /\
   forallb (fun it => negb (String.eqb (it_name it) "ops")) (asked_items ex_headers) = false.
 Proof. vm_compute. repeat split. Qed.
+
+(* a connection upgrade (kubectl exec) with an allowed impersonation: same identity headers, no Authorization,
+   Connection / Upgrade forwarded *)
+Example C02_upgrade_nonvacuous :
+  is_upgrade_request (("Connection", ["Upgrade"]) :: ("Upgrade", ["SPDY/3.1"]) :: ex_headers) = true /\
+  pipeline "tok" "10.0.0.9" (("Connection", ["Upgrade"]) :: ("Upgrade", ["SPDY/3.1"]) :: ex_headers) ex_id (fun _ => true) =
+    Forwarded [("Connection", ["Upgrade"]); ("Upgrade", ["SPDY/3.1"]); ("X-Custom", ["1"]); ("X-Forwarded-For", ["10.0.0.9"]);
+               ("User-Agent", ["Go-http-client/1.1"]); ("Impersonate-User", ["bob"]);
+               ("Impersonate-Group", ["dev"]); ("Impersonate-Group", ["ops"]); ("Impersonate-Group", ["system:authenticated"]);
+               ("Impersonate-Extra-Scopes%2fx", ["view"])].
+Proof. vm_compute. split; reflexivity. Qed.
 
 Example C02_malformed_nonvacuous : malformed [("Impersonate-Group", ["dev"])] = true.
 Proof. reflexivity. Qed.
